@@ -51,6 +51,25 @@ def match_finding(findings, viol):
     return None
 
 
+def replay_witnesses(prop, findings):
+    """Re-execute the committed witness of every open finding of this property first, so that
+    the KNOWN-FINDING line does not depend on the random exploration meeting the defect again."""
+    out = []
+    env = dict(os.environ)
+    env['PYTHONHASHSEED'] = '0'
+    for f in findings:
+        if f.get('status') != 'open' or f.get('property') != prop or not f.get('witness'):
+            continue
+        wp = os.path.join(VERIF, f['witness'])
+        try:
+            r = subprocess.run([sys.executable, '-m', 'rv.worker', prop, 'replay', wp], cwd=VERIF, env=env,
+                               stdout=subprocess.PIPE, stderr=subprocess.PIPE, timeout=600)
+            out.append((f, r.returncode == 1))
+        except Exception:
+            out.append((f, False))
+    return out
+
+
 def spawn_workers(prop, tier, seed, jobs, extra_env=None):
     env = dict(os.environ)
     env['PYTHONHASHSEED'] = '0'
@@ -142,6 +161,11 @@ def main(argv=None):
     findings = load_findings()
     known_seen = collections.OrderedDict()
     new_viols = []
+    witness_status = {}
+    for f, reproduced in replay_witnesses(prop, findings):
+        witness_status[f['key']] = reproduced
+        if reproduced:
+            known_seen.setdefault(f['key'], (f, {'msg': f.get('what', '')}))
     for v in viols:
         f = match_finding(findings, v)
         if f is not None:
@@ -171,6 +195,7 @@ def main(argv=None):
         'inconclusive_runs': dict(inconc),
         'cases_not_run_time_cap': not_run,
         'known_findings_seen': list(known_seen.keys()),
+        'known_finding_witness_reproduced': witness_status,
         'worker_errors': worker_errors,
         'verdict': verdict,
         'jobs': jobs,
@@ -201,6 +226,9 @@ def main(argv=None):
         print('  worker error: ' + e.replace('\n', ' | ')[:500])
     for key, (f, v) in known_seen.items():
         print('KNOWN-FINDING: property=%s %s [%s]' % (prop, f.get('what', v['msg']), key))
+    for key, ok in witness_status.items():
+        if not ok:
+            print('  note: committed witness of finding %s no longer reproduces (it suppresses nothing by itself)' % key)
     if new_viols:
         seen = set()
         for v in new_viols:
